@@ -10,8 +10,11 @@ import vlib
 from gen import novel as GN
 
 ID = "C04"
-PROPS = ["IsoVerif/Props/C04.lean", "IsoVerif/Props/C04Graph.lean", "IsoVerif/Props/C04Store.lean"]
-TARGETS = ["IsoVerif.Props.C04", "IsoVerif.Props.C04Graph", "IsoVerif.Props.C04Store"]
+PROPS = ["IsoVerif/Props/C04.lean", "IsoVerif/Props/C04Graph.lean", "IsoVerif/Props/C04Store.lean",
+         "IsoVerif/Props/C04Paths.lean", "IsoVerif/Props/C03Paths.lean", "IsoVerif/Props/C04Join.lean",
+         "IsoVerif/Props/C04Terminals.lean"]
+TARGETS = ["IsoVerif.Props.C04", "IsoVerif.Props.C04Graph", "IsoVerif.Props.C04Store", "IsoVerif.Props.C04Paths",
+           "IsoVerif.Props.C03Paths", "IsoVerif.Props.C04Join", "IsoVerif.Props.C04Terminals"]
 GEN_DEPS = ["Prims", "Enums", "Strategies", "Constants", "ModelConstruction"]
 LEVEL = "proof"
 RULE = ("in-process: seeded loci (exon lattice, annotated + unannotated isoforms, reads with splice-site jitter, truncation, "
@@ -209,8 +212,9 @@ class LogCounts(defaultdict):
         return 0
 
 
-def traced_graph(params, gene_info, reads):
-    """build the real IntronGraph while recording the operations of simplify() and attach_terminal_positions()"""
+def traced_graph(params, gene_info, reads, keep_on_error=False):
+    """build the real IntronGraph while recording the operations of simplify() and attach_terminal_positions();
+    keep_on_error: return the partially constructed object (with `_exc`) when the constructor raises"""
     IG, GB, GI, PF, TP = _impl()
 
     class TracedGraph(IG.IntronGraph):
@@ -259,6 +263,7 @@ def traced_graph(params, gene_info, reads):
             before_out = {(k, v) for k, s in self.outgoing_edges.items() for v in s}
             before_inc = {(k, v) for k, s in self.incoming_edges.items() for v in s}
             n0 = len(self._log)
+            self._n_simplify = n0
             super().attach_terminal_positions()
             # set.add on the edge sets is not interceptable: recover the attached terminal vertices by difference
             touches = self._log[n0:]
@@ -273,7 +278,15 @@ def traced_graph(params, gene_info, reads):
                     if (k, v) not in before_inc:
                         self._log.append(["attach_inc", list(k), list(v)])
 
-    return TracedGraph(params, gene_info, reads)
+    if not keep_on_error:
+        return TracedGraph(params, gene_info, reads)
+    g = TracedGraph.__new__(TracedGraph)
+    g._exc = None
+    try:
+        g.__init__(params, gene_info, reads)
+    except (KeyError, AssertionError, IndexError, ValueError, ZeroDivisionError) as ex:
+        g._exc = type(ex).__name__
+    return g
 
 
 def snapshot(g):
@@ -406,6 +419,8 @@ def corr_collector_and_graph(ctx, loci):
     cases, vals = [], []
     thread_cases, thread_vals = [], []
     fill_cases, fill_vals = [], []
+    te_cases, te_vals = [], []
+    att_cases, att_vals = [], []
     hangs = 0
     for locus in loci:
         if hangs >= 3:
@@ -446,14 +461,46 @@ def corr_collector_and_graph(ctx, loci):
             continue
         except (KeyError, AssertionError, IndexError, ValueError, ZeroDivisionError) as ex:
             ctx.count("graph_exception:" + type(ex).__name__)
+            # the constructor raised: when it happened inside attach_terminal_positions() (an `assert` of
+            # cluster_polya_positions), the model of the attachment must fail on the same input
+            try:
+                gx = with_timeout(lambda: traced_graph(params, make_gene_info(base["_iso"], base["_known_only"], base["delta"]),
+                                                       [FakeRead(r) for r in base["reads"]], keep_on_error=True))
+            except Hang:
+                continue
+            if gx._exc is not None and hasattr(gx, "_n_simplify"):
+                att_cases.append(("graph_attach", dict(base, ops=gx._log[:gx._n_simplify], apa_delta=params.apa_delta,
+                                                       terminal_position_abs=params.terminal_position_abs,
+                                                       terminal_position_rel=milli(params.terminal_position_rel),
+                                                       terminal_internal_position_rel=milli(params.terminal_internal_position_rel),
+                                                       known_ends=[[list(k), list(v)] for k, v in gx.terminal_known_positions.items() if v],
+                                                       known_starts=[[list(k), list(v)] for k, v in gx.starting_known_positions.items() if v])))
+                att_vals.append({"error": "error", "exc": gx._exc})
             continue
         cases.append(("construct", dict(base)))
         vals.append(after_construct)
         cases.append(("graph_run", dict(base, ops=ops)))
         vals.append(snap)
+        # the same constructor run with the MODELLED attach_terminal_positions (only simplify() is replayed from the trace)
+        att_cases.append(("graph_attach", dict(base, ops=ops[:g._n_simplify], apa_delta=params.apa_delta,
+                                               terminal_position_abs=params.terminal_position_abs,
+                                               terminal_position_rel=milli(params.terminal_position_rel),
+                                               terminal_internal_position_rel=milli(params.terminal_internal_position_rel),
+                                               known_ends=[[list(k), list(v)] for k, v in g.terminal_known_positions.items() if v],
+                                               known_starts=[[list(k), list(v)] for k, v in g.starting_known_positions.items() if v])))
+        att_vals.append(snap)
         ctx.count("graph_ops_len", len(ops))
         for o in ops:
             ctx.count("traced:" + o[0])
+            # hypothesis `OpOk` of `edges_witnessed` on the history the real simplify() performs: collapse_vertex(c, s) only
+            # for c, s with both splice sites closer than graph_clustering_distance
+            if o[0] == "collapse":
+                d = params.graph_clustering_distance
+                if abs(o[1][0] - o[2][0]) < d and abs(o[1][1] - o[2][1]) < d:
+                    ctx.count("collapse_within_clustering_distance")
+                else:
+                    ctx.disagree("collapse_outside_merge_relation", {"collapse": o, "graph_clustering_distance": d, "case": base},
+                                 "Near (graph_clustering_distance - 1)", o)
         # thread_introns on the final collector
         pp = GB.IntronPathProcessor(params, g)
         colj = dict(snap["col"], known=base["known"])
@@ -482,12 +529,36 @@ def corr_collector_and_graph(ctx, loci):
                       "fl": [[list(v) for v in k] for k in sorted(st.fl_paths, key=lambda k: (-len(k), k))],
                       "to_reads": [[[list(v) for v in k], [a.read_id for a in rs]]
                                    for k, rs in sorted(st.paths_to_reads.items(), key=lambda kv: (-len(kv[0]), kv[0]))]}
-            except IndexError as ex:
-                fv = {"error": "error", "exc": "IndexError"}
+            except (IndexError, TypeError) as ex:
+                fv = {"error": "error", "exc": type(ex).__name__}
             fill_cases.append(("fill", {"graph": dict(snap, col=colj), "reads": base["reads"], "requires_polya": req,
                                         "ends": rec["ends"], "starts": rec["starts"]}))
             fill_vals.append(fv)
+            # the same call with the *modelled* thread_ends / thread_starts (path enumeration end to end)
+            fill_cases.append(("fill_graph", {"graph": dict(snap, col=colj), "reads": base["reads"], "requires_polya": req,
+                                              "delta": params.delta, "apa_delta": params.apa_delta}))
+            fill_vals.append(fv)
             ctx.count("fl_paths", len(st.fl_paths))
+            if not req:
+                # thread_ends / thread_starts on the queries fill() made and on perturbed ones
+                qs = []
+                for (k, _v) in rec["ends"] + rec["starts"]:
+                    qs.append((tuple(k[0]), k[1], k[2]))
+                    qs.append((tuple(k[0]), k[1], not k[2]))
+                    qs.append((tuple(k[0]), k[1] + ctx.rng.choice([-1, 1, -params.apa_delta, params.apa_delta, params.delta + 1]), k[2]))
+                seen_q = set()
+                for (intr, pos, tr) in qs:
+                    if (intr, pos, tr) in seen_q or len(seen_q) >= 40:
+                        continue
+                    seen_q.add((intr, pos, tr))
+                    te_cases.append(("thread_end_start", {"graph": dict(snap, col=colj), "intron": list(intr), "pos": pos, "trusted": tr,
+                                                          "delta": params.delta, "apa_delta": params.apa_delta}))
+                    ve, vs_ = oe(intr, pos, tr), os_(intr, pos, tr)
+                    te_vals.append({"end": None if ve is None else list(ve), "start": None if vs_ is None else list(vs_)})
+                for intr in sorted(g.intron_collector.clustered_introns)[:6]:
+                    for vt in (None, IG.VERTEX_polya, IG.VERTEX_read_end, IG.VERTEX_polyt, IG.VERTEX_read_start):
+                        te_cases.append(("get_edges", {"graph": dict(snap, col=colj), "intron": list(intr), "vtype": vt}))
+                        te_vals.append({"out": [list(v) for v in g.get_outgoing(intr, vt)], "inc": [list(v) for v in g.get_incoming(intr, vt)]})
         for r in reads[:12]:
             if r.multimapper:
                 continue
@@ -502,6 +573,25 @@ def corr_collector_and_graph(ctx, loci):
     run_cases(ctx, cases, vals, lambda op, kw, mo: not vlib.is_err(mo) and (bool(mo) if isinstance(mo, list) else bool(mo.get("col", mo).get("clustered"))))
     run_cases(ctx, thread_cases, thread_vals, lambda op, kw, mo: bool(mo))
     run_cases(ctx, fill_cases, fill_vals, lambda op, kw, mo: bool(mo) and (not isinstance(mo, dict) or bool(mo.get("fl"))))
+    run_cases(ctx, te_cases, te_vals, lambda op, kw, mo: isinstance(mo, dict) and any(bool(v) for v in mo.values()))
+    # attach_terminal_positions: cases whose float cut-off is exactly on a comparison boundary are not compared
+    outs = ctx.driver.run([vlib.req("C04." + op, **kw) for op, kw in att_cases])
+    for (op, kw), mo, io in zip(att_cases, outs, att_vals):
+        ctx.evaluations += 1
+        ctx.count("op:" + op)
+        if isinstance(mo, dict) and "driver_error" in mo:
+            ctx.disagree(op, kw, mo, io)
+            continue
+        if isinstance(mo, dict) and mo.get("fragile") and not vlib.is_err(io):
+            ctx.count("graph_attach_on_float_boundary_skipped")
+            continue
+        ctx.traces_validated += 1
+        got = mo.get("graph") if isinstance(mo, dict) and "graph" in mo else mo
+        if not vlib.same(got, io):
+            ctx.disagree(op, kw, got, io)
+        elif isinstance(mo, dict) and mo.get("n_attach", 0) > 0:
+            ctx.count("attach_ops_modelled", mo["n_attach"])
+            ctx.mark_nontrivial([op, kw])
 
 
 # ------------------------------------------------------------------ graph: arbitrary histories on arbitrary states
@@ -643,6 +733,251 @@ def corr_graph_histories(ctx, n):
         cases.append(("graph_ops", {"graph": gj, "obs": [list(o) for o in obs], "ops": ops}))
         vals.append(apply_real_ops(IG, (vs, clustered, corr, discarded, out, inc), ops))
     run_cases(ctx, cases, vals, lambda op, kw, mo: not vlib.is_err(mo))
+
+
+# ------------------------------------------------------------------ witnesses of Props/C04Paths.lean on the real IntronGraph
+
+def _wread(rid, introns, exons):
+    return {"id": rid, "introns": [list(i) for i in introns], "exons": [list(e) for e in exons], "mm": False, "strand": "+",
+            "polya": True, "polyt": False, "group": "g"}
+
+
+EDGE_WITNESSES = {
+    # name: (reads, delta, expected edge after construct(), expected thread_introns of read "a")
+    "edge_order_witness": ([_wread("a", [(10, 20), (22, 40)], [(5, 9), (21, 21), (41, 50)])] +
+                           [_wread(x, [(10, 23)], [(5, 9), (24, 50)]) for x in "bcd"], 4,
+                           [[10, 23], [22, 40]], [[10, 23], [22, 40]]),
+    "edge_selfloop_witness": ([_wread("a", [(10, 12), (14, 16)], [(5, 9), (13, 13), (17, 30)])] +
+                              [_wread(x, [(12, 14)], [(5, 11), (15, 30)]) for x in "bcd"], 4,
+                              [[12, 14], [12, 14]], [[12, 14], [12, 14]]),
+}
+
+
+def corr_edge_witnesses(ctx):
+    """the inputs of `edge_order_witness` / `edge_selfloop_witness` (raw order invariants of the edge relation are false)
+    through the real IntronCollector / IntronGraph.construct / thread_introns"""
+    IG, GB, GI, PF, TP = _impl()
+    cases, vals = [], []
+    seen = {}
+    for name, (reads, delta, edge, thread) in EDGE_WITNESSES.items():
+        kw = {"known": [], "delta": delta, "reads": reads, "min_count": 1,
+              "_p": {"preset": "default_ont", "delta": delta, "apa_delta": 10, "min_novel_intron_count": 1},
+              "_iso": [], "_known_only": []}
+        g, gi, rr = real_graph_from_kw(kw)
+        cases.append(("construct", dict(kw)))
+        vals.append(g.after_construct)
+        pp = GB.IntronPathProcessor(graph_params(kw["_p"]), g)
+        # construct() ran before simplify(); thread on the collector as it was then is not observable any more, so the
+        # witness is checked on the edge list of the after-construct snapshot and on the final thread_introns
+        th = pp.thread_introns([tuple(i) for i in reads[0]["introns"]])
+        seen[name] = {"edge_after_construct": edge in [[a, b] for a, b in g.after_construct["out"]],
+                      "thread_introns_final": None if th is None else [list(v) for v in th]}
+        if not seen[name]["edge_after_construct"]:
+            ctx.disagree("witness:" + name, kw, {"edge": edge}, g.after_construct["out"])
+    ctx.extra["edge_witnesses_on_real_code"] = seen
+    run_cases(ctx, cases, vals, lambda op, kw, mo: not vlib.is_err(mo) and bool(mo.get("out")))
+
+
+# ------------------------------------------------------------------ thread_ends / thread_starts: exhaustive small universe
+
+TE_INTRON = (100, 200)
+TE_OUT_POOL = [(-10, 250), (-10, 290), (-11, 270), (-11, 330), (240, 400), (300, 420)]
+TE_INC_POOL = [(-20, 60), (-20, 30), (-21, 45), (-21, 10), (20, 70), (5, 40)]
+
+
+def bare_graph(IG, out, inc, clustered=()):
+    """a real IntronGraph object with the given edge sets (no reads)"""
+    col = IG.IntronCollector.__new__(IG.IntronCollector)
+    col.gene_info = None
+    col.known_introns = set()
+    col.delta = 0
+    col.clustered_introns = defaultdict(int, {k: 1 for k in clustered})
+    col.intron_correction_map = {}
+    col.discarded_introns = set()
+    g = IG.IntronGraph.__new__(IG.IntronGraph)
+    g.params = types.SimpleNamespace(debug=False)
+    g.intron_collector = col
+    g.outgoing_edges = defaultdict(set)
+    g.incoming_edges = defaultdict(set)
+    g.edge_weights = defaultdict(int)
+    for a, b in out:
+        g.outgoing_edges[a].add(b)
+    for a, b in inc:
+        g.incoming_edges[a].add(b)
+    return g
+
+
+def corr_thread_universe(ctx):
+    """every subset of 6 candidate neighbours of one intron x a grid of read end / start positions x trusted:
+    the real thread_ends / thread_starts against the model (the grid contains every candidate position, +-1, +-apa_delta)"""
+    IG, GB, GI, PF, TP = _impl()
+    q = ctx.tier == "quick"
+    cases, vals = [], []
+    combos = [(0, 5), (4, 10)] if q else [(0, 5), (4, 10), (6, 50), (12, 10)]
+    n_sub = 0
+    for mask in range(64):
+        if q and mask % 3 != ctx.seed % 3 and mask not in (0, 63):
+            continue
+        out = [(TE_INTRON, TE_OUT_POOL[i]) for i in range(6) if mask >> i & 1]
+        inc = [(TE_INTRON, TE_INC_POOL[i]) for i in range(6) if mask >> i & 1]
+        g = bare_graph(IG, out, inc, [TE_INTRON])
+        gj = {"col": {"known": [], "clustered": [[list(TE_INTRON), 1]], "corr": [], "discarded": []},
+              "out": sorted([list(a), list(b)] for a, b in out), "inc": sorted([list(a), list(b)] for a, b in inc)}
+        n_sub += 1
+        for delta, apa in combos:
+            params = types.SimpleNamespace(delta=delta, apa_delta=apa)
+            pp = GB.IntronPathProcessor(params, g)
+            grid = set()
+            for _, v in out + inc:
+                base = v[1] if v[0] < 0 else v[0]
+                for d in (-apa - 1, -apa, -delta - 1, -1, 0, 1, delta, delta + 1, apa, apa + 1):
+                    grid.add(base + d)
+                if v[0] >= 0:
+                    for d in (-delta - 1, -delta, 0, 1, delta + 1, delta + 2):
+                        grid.add(v[1] + d)
+            grid |= {1, 150, 500}
+            for pos in sorted(grid):
+                for tr in (False, True):
+                    cases.append(("thread_end_start", {"graph": gj, "intron": list(TE_INTRON), "pos": pos, "trusted": tr,
+                                                       "delta": delta, "apa_delta": apa}))
+                    ve, vs_ = pp.thread_ends(TE_INTRON, pos, tr), pp.thread_starts(TE_INTRON, pos, tr)
+                    vals.append({"end": None if ve is None else list(ve), "start": None if vs_ is None else list(vs_)})
+    ctx.extra["thread_universe"] = {"neighbour_subsets": n_sub, "of": 64, "cases": len(cases),
+                                    "grid": "candidate positions +-{0,1,delta,delta+1,apa_delta,apa_delta+1}, trusted in {F,T}"}
+    run_cases(ctx, cases, vals, lambda op, kw, mo: isinstance(mo, dict) and any(bool(v) for v in mo.values()))
+
+
+# ------------------------------------------------------------------ TranscriptToGeneJoiner
+
+def real_join(kw):
+    """run the real TranscriptToGeneJoiner; -> (canonical result | error, table of traced count_score values)"""
+    from fractions import Fraction
+    IG, GB, GI, PF, TP = _impl()
+    gene_strands = {}
+    regions = {}
+    for g in kw["ref_genes"]:
+        gene_strands[g["gid"]] = g["strand"]
+        if g["region"] is not None:
+            regions[g["gid"]] = tuple(g["region"])
+    gi = types.SimpleNamespace(gene_strands=gene_strands, get_gene_regions=lambda: regions,
+                               gene_id_map={t: g for t, g, _ in kw["ref_transcripts"]},
+                               all_isoforms_introns={t: [tuple(i) for i in intr] for t, g, intr in kw["ref_transcripts"]})
+    storage = [GI.TranscriptModel(m["chr"], m["strand"], m["tid"], m["gene"], [tuple(e) for e in m["exons"]],
+                                  GI.TranscriptModelType[m["type"]]) for m in kw["storage"]]
+    table = {}
+
+    class Traced(GB.TranscriptToGeneJoiner):
+        def count_score(self, gene1, gene2):
+            v = super().count_score(gene1, gene2)
+            if self.gene_strands[gene1] == self.gene_strands[gene2]:
+                key = (self.gene_regions[gene1], self.gene_regions[gene2],
+                       tuple(sorted(self.gene_introns[gene1])), tuple(sorted(self.gene_introns[gene2])))
+                fr = Fraction(v)
+                table[key] = (fr.numerator, fr.denominator)
+            return v
+    try:
+        j = Traced(storage, gi)
+        res = j.join_transcripts()
+    except (KeyError, AssertionError, IndexError, ZeroDivisionError) as ex:
+        return {"error": "error", "exc": type(ex).__name__}, table
+    out = {"genes": [[m.transcript_id, m.gene_id] for m in res],
+           "strands": sorted([g, s] for g, s in j.gene_strands.items()),
+           "regions": sorted([g, list(r)] for g, r in j.gene_regions.items()),
+           "g2t": sorted([g, sorted(ts)] for g, ts in j.gene_to_transcripts.items()),
+           "introns": sorted([g, sorted(list(i) for i in s_)] for g, s_ in j.gene_introns.items() if g in j.gene_to_transcripts),
+           "scores": [[a, b, Fraction(v).numerator, Fraction(v).denominator] for (a, b), v in j.scores.items()]}
+    return out, table
+
+
+def canon_join(mo):
+    from fractions import Fraction
+    if not isinstance(mo, dict) or "genes" not in mo:
+        return mo
+    g2t_keys = {g for g, _ in mo["g2t"]}
+    sc = []
+    for a, b, n, d in mo["scores"]:
+        fr = Fraction(n, d)
+        sc.append([a, b, fr.numerator, fr.denominator])
+    return {"genes": mo["genes"], "strands": sorted(mo["strands"]), "regions": sorted(mo["regions"]),
+            "g2t": sorted([g, sorted(ts)] for g, ts in mo["g2t"]),
+            "introns": sorted([g, i] for g, i in mo["introns"] if g in g2t_keys), "scores": sc}
+
+
+def gen_joiner_case(rng):
+    """a locus with 0-3 annotated genes and a storage of known + novel models attributed to annotated or novel genes"""
+    n_ref = rng.choice([0, 1, 1, 2, 3])
+    lattice = exon_pool = [(100 + 150 * k, 100 + 150 * k + rng.randint(20, 90)) for k in range(10)]
+    ref_genes, ref_tr = [], []
+    for k in range(n_ref):
+        strand = rng.choice("+-")
+        a = rng.randint(0, 5)
+        b = rng.randint(a + 2, 9)
+        region = [exon_pool[a][0], exon_pool[b][1]]
+        gid = "G%d" % k
+        ref_genes.append({"gid": gid, "strand": strand, "region": region if rng.random() < 0.97 else None})
+        for t in range(rng.randint(0, 2)):
+            ex = sorted(rng.sample(exon_pool[a:b + 1], rng.randint(2, min(4, b - a + 1))))
+            ref_tr.append(["%s.T%d" % (gid, t), gid, [list(i) for i in GN.introns_of(ex)]])
+    storage = []
+    novel_genes = ["novel_gene_chr1_%d" % (10 + k) for k in range(rng.randint(1, 4))]
+    gene_strand = {g["gid"]: g["strand"] for g in ref_genes}
+    for g in novel_genes:
+        gene_strand[g] = rng.choice("+-") if rng.random() < 0.93 else "."
+    # known models (reference ids; sometimes an id the annotation does not have -> KeyError)
+    for t, g, intr in ref_tr:
+        if rng.random() < 0.5:
+            storage.append({"chr": "chr1", "strand": gene_strand[g], "tid": t, "gene": g, "exons": [[50, 60], [70, 80]],
+                            "type": "known", "intron_path": []})
+    if rng.random() < 0.03:
+        storage.append({"chr": "chr1", "strand": "+", "tid": "ghost", "gene": "G0", "exons": [[50, 60]], "type": "known", "intron_path": []})
+    for k in range(rng.randint(1, 6)):
+        g = rng.choice(novel_genes + [x["gid"] for x in ref_genes])
+        ex = sorted(rng.sample(exon_pool, rng.randint(1, 4)))
+        if rng.random() < 0.3:
+            # share exons with an earlier model so that intron sets intersect
+            prev = [m for m in storage if m["type"] != "known"]
+            if prev:
+                ex = [tuple(e) for e in rng.choice(prev)["exons"]]
+        strand = gene_strand[g] if rng.random() < 0.96 else rng.choice("+-.")
+        storage.append({"chr": "chr1", "strand": strand, "tid": "transcript%d.chr1.nnic" % k, "gene": g,
+                        "exons": [list(e) for e in ex] if rng.random() < 0.99 else [], "type": rng.choice(["novel_in_catalog", "novel_not_in_catalog"]),
+                        "intron_path": []})
+    return {"ref_genes": ref_genes, "ref_transcripts": ref_tr, "storage": storage}
+
+
+def corr_joiner(ctx, n):
+    from fractions import Fraction
+    cases, vals = [], []
+    sc_cases, sc_floats = [], []
+    merges = 0
+    for _ in range(n):
+        kw = gen_joiner_case(ctx.rng)
+        iv, table = real_join(kw)
+        kw["table"] = [[[list(k[0]), list(k[1]), [list(i) for i in k[2]], [list(i) for i in k[3]]], list(v)] for k, v in table.items()]
+        cases.append(("join_transcripts", kw))
+        vals.append(iv)
+        if not vlib.is_err(iv):
+            merged = sum(1 for m, (t, g) in zip(kw["storage"], iv["genes"]) if m["gene"] != g)
+            merges += merged
+            ctx.count("joiner_models_moved", merged)
+        else:
+            ctx.count("joiner_exception:" + iv["exc"])
+        for k, v in list(table.items())[:3]:
+            sc_cases.append(("count_score_exact", {"r1": list(k[0]), "r2": list(k[1]), "i1": [list(i) for i in k[2]], "i2": [list(i) for i in k[3]]}))
+            sc_floats.append(float(Fraction(v[0], v[1])))
+    run_cases(ctx, cases, vals, lambda op, kw, mo: not vlib.is_err(mo) and any(m["gene"] != g for m, (t, g) in zip(kw["storage"], mo["genes"])),
+              canon_model=canon_join)
+    # the declarative score formula against the floats of the real count_score (within 1e-9)
+    outs = ctx.driver.run([vlib.req("C04." + op, **kw) for op, kw in sc_cases])
+    for (op, kw), mo, fl in zip(sc_cases, outs, sc_floats):
+        ctx.evaluations += 1
+        ctx.count("op:" + op)
+        if not (isinstance(mo, list) and len(mo) == 2 and mo[1] > 0 and abs(mo[0] / mo[1] - fl) < 1e-9):
+            ctx.disagree(op, kw, mo, fl)
+        else:
+            ctx.traces_validated += 1
+            if fl > 0:
+                ctx.mark_nontrivial([op, kw])
 
 
 # ------------------------------------------------------------------ decision block of construct_fl_isoforms
@@ -1209,6 +1544,9 @@ def correspondence(ctx):
     corr_tables(ctx)
     corr_collector_and_graph(ctx, gen_loci(ctx, 150 if q else 1500))
     corr_graph_histories(ctx, 600 if q else 6000)
+    corr_thread_universe(ctx)
+    corr_edge_witnesses(ctx)
+    corr_joiner(ctx, 400 if q else 4000)
     corr_strand(ctx, 200 if q else 2000)
     corr_validate_exons(ctx, 300 if q else 3000)
     corr_monoexon(ctx, 300 if q else 3000)
@@ -1239,6 +1577,23 @@ def oracle_graph_case(kw):
     bad = sorted(v for v in graph_vertices(snap) if v not in obs)
     if bad:
         return "graph_vertex_unobserved", "vertices %s occur in no non-multimapper read" % bad[:4]
+    # terminal_vertices_spec: codes, side and origin of the attached terminal vertices
+    ends = {r.corrected_exons[-1][1] for r in reads if not r.multimapper and r.corrected_exons}
+    starts = {r.corrected_exons[0][0] for r in reads if not r.multimapper and r.corrected_exons}
+    for k, vs in g.outgoing_edges.items():
+        for v in vs:
+            if v[0] >= 0:
+                continue
+            ok_pos = v[1] in ends or (v[0] == IG.VERTEX_polya and v[1] in g.terminal_known_positions.get(k, []))
+            if v[0] not in (IG.VERTEX_polya, IG.VERTEX_read_end) or not v[1] > k[1] or not ok_pos:
+                return "terminal_vertex_misplaced", "outgoing_edges[%s] holds %s" % (k, v)
+    for k, vs in g.incoming_edges.items():
+        for v in vs:
+            if v[0] >= 0:
+                continue
+            ok_pos = v[1] in starts or (v[0] == IG.VERTEX_polyt and v[1] in g.starting_known_positions.get(k, []))
+            if v[0] not in (IG.VERTEX_polyt, IG.VERTEX_read_start) or not v[1] < k[0] or not ok_pos:
+                return "terminal_vertex_misplaced", "incoming_edges[%s] holds %s" % (k, v)
     params = graph_params(kw["_p"])
     pp = GB.IntronPathProcessor(params, g)
     threaded = set()
@@ -1257,6 +1612,8 @@ def oracle_graph_case(kw):
         st.fill(reads)
     except IndexError:
         return None
+    except TypeError:
+        return "fill_raises", "IntronPathStorage.fill raises TypeError on a well-formed read set"
     for pth in st.fl_paths:
         inner = tuple(tuple(v) for v in pth[1:-1])
         if inner not in threaded:
@@ -1265,6 +1622,18 @@ def oracle_graph_case(kw):
             return "unsupported_intron", "full-length path %s has an intron no non-multimapper read contains" % (list(pth),)
         if st.paths[pth] != len(st.paths_to_reads[pth]) or any(a.multimapper for a in st.paths_to_reads[pth]):
             return "fl_path_without_read", "path %s: count %d, reads %d" % (list(pth), st.paths[pth], len(st.paths_to_reads[pth]))
+        # fl_paths_attached: the ends are terminal vertices attached to the first / last intron
+        if not inner or pth[0][0] not in (IG.VERTEX_polyt, IG.VERTEX_read_start) or pth[-1][0] not in (IG.VERTEX_polya, IG.VERTEX_read_end) \
+                or pth[0] not in g.incoming_edges.get(inner[0], ()) or pth[-1] not in g.outgoing_edges.get(inner[-1], ()):
+            return "fl_path_not_attached", "full-length path %s does not run from a starting to a terminal vertex of its introns" % (list(pth),)
+        # paths_monotone: what survives the length guard is strictly increasing with an exon everywhere
+        import src.common as C
+        ex = C.get_exons((pth[0][1], pth[-1][1]), list(inner))
+        if len(ex) == len(inner) + 1:
+            chain = [(0, pth[0][1] - 1)] + list(inner) + [(pth[-1][1] + 1, 0)]
+            if any(i[0] > i[1] for i in inner) or any(chain[k][1] + 1 >= chain[k + 1][0] for k in range(len(chain) - 1)) or \
+                    any(ex[k][1] >= ex[k + 1][0] for k in range(len(ex) - 1)) or any(e[0] > e[1] for e in ex):
+                return "path_not_monotone", "path %s passes the length guard with exons %s" % (list(pth), ex)
     return None
 
 
@@ -1356,6 +1725,41 @@ def oracle_store_case(kw):
             for m in c.transcript_model_storage:
                 if m.transcript_type != GI.TranscriptModelType.known and m.transcript_id not in listed:
                     return "no_supporting_read", "stored novel model %s has no line in transcript_model_reads" % m.transcript_id
+    return None
+
+
+def oracle_joiner_case(kw):
+    """joined_gene_strand on the real TranscriptToGeneJoiner, inside the theorem's domain (pairwise distinct ids)"""
+    IG, GB, GI, PF, TP = _impl()
+    novel = [m for m in kw["storage"] if m["type"] != "known"]
+    ids = [m["tid"] for m in novel]
+    if len(set(ids)) != len(ids) or set(ids) & {t for t, _, _ in kw["ref_transcripts"]}:
+        return None
+    gene_strands = {g["gid"]: g["strand"] for g in kw["ref_genes"]}
+    regions = {g["gid"]: tuple(g["region"]) for g in kw["ref_genes"] if g["region"] is not None}
+    gi = types.SimpleNamespace(gene_strands=gene_strands, get_gene_regions=lambda: regions,
+                               gene_id_map={t: g for t, g, _ in kw["ref_transcripts"]},
+                               all_isoforms_introns={t: [tuple(i) for i in intr] for t, g, intr in kw["ref_transcripts"]})
+    storage = [GI.TranscriptModel(m["chr"], m["strand"], m["tid"], m["gene"], [tuple(e) for e in m["exons"]],
+                                  GI.TranscriptModelType[m["type"]]) for m in kw["storage"]]
+    try:
+        j = GB.TranscriptToGeneJoiner(storage, gi)
+        res = j.join_transcripts()
+    except (KeyError, AssertionError, IndexError, ZeroDivisionError):
+        return None
+    by_gene = defaultdict(set)
+    for m in res:
+        if m.transcript_type == GI.TranscriptModelType.known:
+            continue
+        if j.gene_strands.get(m.gene_id) != m.strand:
+            return "gene_strand_mismatch", "novel model %s (%s) joined to gene %s of strand %r" % (
+                m.transcript_id, m.strand, m.gene_id, j.gene_strands.get(m.gene_id))
+        by_gene[m.gene_id].add(m.strand)
+        if m.gene_id in gene_strands and gene_strands[m.gene_id] != m.strand:
+            return "gene_strand_mismatch", "novel model %s (%s) joined to annotated gene %s (%s)" % (
+                m.transcript_id, m.strand, m.gene_id, gene_strands[m.gene_id])
+    if any(len(v) > 1 for v in by_gene.values()):
+        return "gene_strand_mismatch", "a joined gene holds novel models of two strands"
     return None
 
 
@@ -1611,7 +2015,7 @@ def pipeline_oracle(ctx, nrandom):
         ctx.mark_nontrivial("pipeline:novel_spliced_models_checked")
 
 
-INPROC = {"monoexon": oracle_monoexon_case, "graph_run": oracle_graph_case, "construct": oracle_graph_case, "cluster": oracle_graph_case,
+INPROC = {"join_transcripts": oracle_joiner_case, "monoexon": oracle_monoexon_case, "graph_run": oracle_graph_case, "construct": oracle_graph_case, "cluster": oracle_graph_case,
           "graph_ops": oracle_graph_ops_case, "construct_fl": oracle_fl_case, "store_run": oracle_store_case}
 
 
@@ -1665,6 +2069,14 @@ def oracle(ctx, disagreements, broken):
         n += 1
         if r:
             ctx.fail(r[0], {"level": "inproc", "op": "store_run", "args": kw, "class": ""}, r[1])
+            if len(ctx.failures) > 20:
+                break
+    for _ in range(300 if q else 3000):
+        kw = gen_joiner_case(ctx.rng)
+        r = oracle_joiner_case(kw)
+        n += 1
+        if r:
+            ctx.fail(r[0], {"level": "inproc", "op": "join_transcripts", "args": kw, "class": ""}, r[1])
             if len(ctx.failures) > 20:
                 break
     for _ in range(150 if q else 1500):
